@@ -40,7 +40,9 @@ extern "C" int LLVMFuzzerTestOneInput(const uint8_t* data, size_t size) {
   fuzz::begin(0);
   {
     Xml::Element e0; bool ok0 = Xml::parse((const char*)text, e0);   // exact size block
-    String s(text, size); Xml::Parser p; Xml::Element e; bool ok = p.parse(s, e);
+    static Xml::Parser* reused = new Xml::Parser;   // a parser object is reused for many documents
+    Xml::Parser fresh; Xml::Parser& p = (fuzz::st().execs % 4) ? *reused : fresh;
+    String s(text, size); Xml::Element e; bool ok = p.parse(s, e);
     if (ok != ok0) fuzz::fail("Xml::parse(const char*) and Xml::Parser::parse(const String&) disagree on success");
     if (!ok) {
       std::string r = jsonref::checkErrorPos(stext, p.getErrorLine(), p.getErrorColumn());
